@@ -82,6 +82,7 @@ class Model:
         self.files = {}
         self.lfs = {}
         self.objs = {}
+        self.nf_records = {}
         self.hc_depth = 0
 
     def apply(self, op, st, step, hc=False):
@@ -104,10 +105,19 @@ class Model:
             self.objs[op['h']] = m
         elif o == 'nf_data':
             self.lfs[op['lf']].nf_data.append((op['nf']['$ref'], op['data']))
+            if op.get('h'):
+                self.nf_records[op['h']] = (op['lf'], len(self.lfs[op['lf']].nf_data) - 1)
         elif o == 'set':
             self.objs[op['h']].sets_later.append((op['attr'], op.get('part', 'value'), op['v'], step))
+        elif o == 'set_prop' and op['h'] in self.nf_records:
+            lf, k = self.nf_records[op['h']]
+            if op['prop'] == 'data':
+                self.lfs[lf].nf_data[k] = (self.lfs[lf].nf_data[k][0], op['v'])
         elif o == 'set_prop':
             self.objs[op['h']].props_later.append((op['prop'], op['v'], step))
+        elif o == 'set_sul':
+            key = {'sequence_number': 'sul_sequence_number'}.get(op['prop'], op['prop'])
+            self.files[op['fid']].kwargs[key] = op['v']
         elif o == 'write':
             self.files[op['fid']].writes += 1
 
